@@ -147,6 +147,17 @@ def _run(ctx, t0):
                 if extra:
                     proof_problems.append('unexpected axioms: ' + ', '.join(extra))
 
+    chk_note = None
+    if ok_p and ctx.tier == 'thorough' and not os.environ.get('VERIF_NO_COQCHK'):
+        ok_c, ax_c, out_c = coq.coqchk(props_v)
+        chk_note = 'coqchk -o on %s and its dependencies: %s; axioms: %s' % (
+            props_v, 'accepted' if ok_c else 'FAILED', ', '.join(ax_c) or 'none')
+        ctx.log(chk_note)
+        if not ok_c:
+            proof_problems.append('coqchk rejects the compiled development: ' + _tail(out_c))
+        elif ax_c:
+            proof_problems.append('coqchk reports axioms: ' + ', '.join(ax_c))
+
     # 4. property check (correspondence + spec oracle)
     try:
         mod.check(ctx, res)
@@ -212,7 +223,7 @@ def _run(ctx, t0):
     tb = [
         'Coq 8.16.1 kernel (coqc, vm_compute; no native_compute)',
         'Print Assumptions under every theorem of %s: %s' % (props_v, '; '.join(assumptions) or 'n/a (not built)'),
-    ] + list(getattr(mod, 'TRUSTED_BASE', [])) + res['trusted_base']
+    ] + ([chk_note] if chk_note else []) + list(getattr(mod, 'TRUSTED_BASE', [])) + res['trusted_base']
     ev = {
         'property_id': pid,
         'tier': ctx.tier,
